@@ -1,9 +1,11 @@
 package calls
 
 import (
+	"context"
 	"fmt"
 	"runtime/debug"
 	"strings"
+	"time"
 
 	"github.com/tetratelabs/wazero"
 	"github.com/tetratelabs/wazero/api"
@@ -186,6 +188,10 @@ func run(t *tape.Tape, cfg sim.Config, listen bool) (res sim.Result) {
 		r.perInstCompile = true
 		res.Stat("probe.one_compilation_per_instance_same_selection", 1)
 	}
+	if t.Chance(1, 3) {
+		r.ensureTerm = true
+		res.Stat("probe.close_on_context_done_enabled_never_triggered", 1)
+	}
 	r.setup([]*plan.Plan{pa, pa, pb}, []string{"a", "", "b"}, []int{-1, -1, 0})
 	defer r.rt.Close(r.ctx)
 	if t.Chance(1, 4) {
@@ -248,19 +254,27 @@ func run(t *tape.Tape, cfg sim.Config, listen bool) (res sim.Result) {
 		}
 		var got uint64
 		var err error
+		callCtx, cancelCall := context.WithCancel(r.ctx)
 		if useStack {
 			st := []uint64{uint64(uint32(arg))}
-			err = f.CallWithStack(r.ctx, st)
+			err = f.CallWithStack(callCtx, st)
 			got = st[0]
 		} else {
 			var rs []uint64
-			rs, err = f.Call(r.ctx, uint64(uint32(arg)))
+			rs, err = f.Call(callCtx, uint64(uint32(arg)))
 			if err == nil {
 				if len(rs) != 1 {
 					res.Fail("result-mismatch", "%s returned %d results", what, len(rs))
 					break
 				}
 				got = rs[0]
+			}
+		}
+		cancelCall() // the usual "defer cancel()": the call is over, nothing may react to this any more
+		if err != nil && r.ensureTerm && r.termWaits < 2 && !r.mods[k].IsClosed() {
+			r.termWaits++
+			for w := 0; w < 8 && !r.mods[k].IsClosed(); w++ {
+				time.Sleep(100 * time.Microsecond)
 			}
 		}
 		kind, msg, code := classify(err)
@@ -340,12 +354,13 @@ func run(t *tape.Tape, cfg sim.Config, listen bool) (res sim.Result) {
 // effects on OTHER instances (through imports, re-entrant host calls) persist, and everybody keeps working.
 func (r *runner) laterInstantiation(pa, pb *plan.Plan, step int) {
 	t := r.t
-	src, name, imp := pa, "", -1
+	src, name, imp := pa, fmt.Sprintf("late%d", step), -1
 	if t.Chance(1, 2) && !r.insts[0].Closed {
 		src, imp = pb, 0 // (importing from "a" needs it to be still registered)
 	}
 	cp := *src
 	cp.HasStart, cp.StartFn, cp.StartArg = true, t.Choose(len(src.Funcs)), int32(t.Choose(100))
+	cp.StartExported = t.Chance(1, 2)
 	p := &cp
 	var impInst *plan.Inst
 	if imp >= 0 {
@@ -382,6 +397,12 @@ func (r *runner) laterInstantiation(pa, pb *plan.Plan, step int) {
 		}
 		r.insts = append(r.insts, in)
 		r.mods = append(r.mods, mod)
+	case mfail.Kind == "exit" && p.StartExported && mfail.ExitCode == 0:
+		// "_start" ending in exit code 0 is success by convention: no error, the returned module is closed
+		if ierr != nil || mod == nil || !mod.IsClosed() {
+			r.res.Fail("error-kind", "%s: _start exited with code 0: expected no error and a closed module, got %s %q", what, kind, msg)
+			return
+		}
 	case mfail.Kind == "exit":
 		// a start function that exits: instantiation returns the exit error (exit code 0 included)
 		if kind != "exit" || code != mfail.ExitCode {
@@ -396,6 +417,14 @@ func (r *runner) laterInstantiation(pa, pb *plan.Plan, step int) {
 		// the failure is wrapped ("start function[..] failed: ..."): the original must be recognisable
 		if !strings.Contains(ierr.Error(), strings.TrimPrefix(mfail.Msg, "wasm error: ")) {
 			r.res.Fail("error-kind", "%s: model predicts %s %q, wazero returned %q", what, mfail.Kind, mfail.Msg, msg)
+			return
+		}
+	}
+	if mfail != nil && r.res.Violation == nil {
+		// whatever made the start function fail (a trap, an exit - its own or one executed by a function of
+		// ANOTHER instance it called), nothing of the failed instance stays behind under its name
+		if m := r.rt.Module(name); m != nil {
+			r.res.Fail("failed-instantiation-leaks", "%s failed (%s) but a module is registered under its name %q (IsClosed=%v)", what, mfail, name, m.IsClosed())
 			return
 		}
 	}
